@@ -303,7 +303,7 @@ fn infix_arith_ok(g: &Goal) -> bool {
 
 // ------------------------------------------------------------------ C20
 
-const SPECIAL_TEXTS: [&str; 14] = ["-5", "+5", "-2.5", "+0.25", "-0", "\\,", "?", "!", ".", "-", "007", "1.", "x-1", "a.b"];
+const SPECIAL_TEXTS: [&str; 19] = ["-5", "+5", "-2.5", "+0.25", "-0", "\\,", "?", "!", ".", "-", "007", "1.", "x-1", "a.b", "\\;", "\\|", "\\.", "\\!", "\\?"];
 
 /// Signed-number text (the domain C20 names): optional sign, 1-20 digits (so beyond i64 too, and
 /// with leading zeros), optional fraction of 1-6 digits.  Shapes that are not numbers in the C19
